@@ -201,3 +201,40 @@ Proof.
   apply (scram_fresh_nonce H HMAC hsize precis cfg id) in E1. destruct E1 as (R1 & N1 & _). simpl in *. subst rs1.
   apply (scram_fresh_nonce H HMAC hsize precis cfg id) in E2. destruct E2 as (R2 & N2 & _). simpl. split; assumption.
 Qed.
+
+(* ---- internal/pbkdf2.Key is RFC 5802's Hi when one block is requested (keyLen = hashLen) ---- *)
+Lemma bxor_length : forall a b, length a = length b -> length (bxor a b) = length a.
+Proof. induction a as [|x a IH]; destruct b as [|y b]; simpl; intros L; try discriminate; auto. Qed.
+
+Lemma nat_iter_succ_r : forall (A : Type) (f : A -> A) k x, Nat.iter (S k) f x = Nat.iter k f (f x).
+Proof. intros A f k. induction k as [|k IH]; intros x; [reflexivity|]. simpl in *. rewrite <- IH. reflexivity. Qed.
+
+Lemma pb_iter_is_hi_from : forall (HMAC : bytes -> bytes -> bytes) pass k t u,
+  fst (Nat.iter k (fun tu : bytes * bytes => let u' := HMAC pass (snd tu) in (bxor (fst tu) u', u')) (t, u))
+  = hi_from HMAC pass u t k.
+Proof.
+  intros HMAC pass k. induction k as [|k IH]; intros t u; [reflexivity|].
+  rewrite nat_iter_succ_r. cbv beta zeta. simpl fst. simpl snd. rewrite IH. reflexivity.
+Qed.
+
+Lemma hi_from_length : forall (HMAC : bytes -> bytes -> bytes) n pass k t u,
+  (forall key m, length (HMAC key m) = n) -> length t = n -> length (hi_from HMAC pass u t k) = n.
+Proof.
+  intros HMAC n pass k. induction k as [|k IH]; intros t u L Lt; simpl; auto.
+  apply IH; auto. rewrite bxor_length; auto. rewrite L. auto.
+Qed.
+
+Lemma pbkdf2_is_Hi : forall (HMAC : bytes -> bytes -> bytes) (n : nat) pw salt (i : nat),
+  (forall key m, length (HMAC key m) = n) -> (0 < n)%nat -> (1 <= i)%nat ->
+  pbkdf2_key HMAC pw salt (Z.of_nat i) n n = Hi HMAC pw salt i.
+Proof.
+  intros HMAC n pw salt i L Hn Hi1. unfold pbkdf2_key, Hi.
+  assert (D : ((n + n - 1) / n = 1)%nat).
+  { symmetry. apply (Nat.div_unique (n + n - 1) n 1 (n - 1)); lia. }
+  rewrite D. simpl seq. simpl map. simpl concat. rewrite app_nil_r.
+  unfold pb_block. change (be32 (N.of_nat 1)) with [0; 0; 0; 1].
+  replace (Z.to_N (Z.of_nat i - 1)) with (N.of_nat (i - 1)) by lia.
+  rewrite N2Nat.inj_iter, Nat2N.id, pb_iter_is_hi_from.
+  rewrite firstn_all2; [reflexivity|].
+  rewrite (hi_from_length HMAC n); auto.
+Qed.
